@@ -55,6 +55,12 @@ def _generic_rules(ctx, pid):
   ctx.rule('%s.S3' % pid, 'locks, events and queues constructed in the anchored modules are gevent primitives (thread primitives neither exclude nor yield between greenlets)')
   ctx.rule('%s.S4' % pid, 'a constructor of the anchored modules that starts a greenlet on a method of the new object stores every attribute that method reads before the spawn')
   _util.init_before_spawn(ctx, '%s.S4' % pid, _anchor_files(pid))
+  ctx.rule('%s.S5' % pid, 'a local bound to a one-shot iterator (generator function result, generator expression, map/filter/zip) in the anchored modules is consumed at most once on every path')
+  _util.one_shot_iterators(ctx, '%s.S5' % pid, _anchor_files(pid))
+  ctx.rule('%s.S6' % pid, 'a truth test in the anchored modules on a value that may be an instance of a package class is a presence test: that class defines no __len__ / __bool__')
+  _util.truthiness_protocol(ctx, '%s.S6' % pid, _anchor_files(pid))
+  ctx.rule('%s.S7' % pid, 'a gevent.Timeout (a BaseException) armed in a function of the anchored modules is caught by that function or armed silent')
+  _util.timeouts_caught(ctx, '%s.S7' % pid, sorted(ctx.prog.modules) if pid in ('C01', 'C08') else _anchor_files(pid))
   # C01 (every call completes by its deadline) needs the hub itself never to block: there the rule covers every module of the package
   _util.greenlet_primitives(ctx, '%s.S3' % pid, sorted(ctx.prog.modules) if pid == 'C01' else _anchor_files(pid))
 
